@@ -489,6 +489,60 @@ fn storm_test(c: &SimCase, obs: &mut Obs) -> CheckResult {
     Ok(())
 }
 
+// ---------------------------------------------------------------------------------------------
+// "the Dublin/IPv6 payload length derived from the sequence always fits the packet buffer": the
+// clause is about the dispatch code, so it is run - every offset a trace can reach is put on the
+// simulated wire
+
+fn payload_cases(tier: Tier) -> Vec<super::c02::SweepCase> {
+    let mut out = vec![];
+    for c in super::c02::sweep_cases(tier) {
+        if !(c.cfg.v6 && c.cfg.strategy == Strat::Dublin && c.cfg.protocol == Proto::Udp) {
+            continue;
+        }
+        // 254 probes per round (offsets 0..=761), and 73 per round: the eighth round then starts at
+        // offset 511, the highest start there is
+        for max_ttl in [254u8, 73] {
+            let mut c = c.clone();
+            c.cfg.max_ttl = max_ttl;
+            c.rounds = if max_ttl == 254 { 4 } else { 9 };
+            c.cfg.max_rounds = c.rounds;
+            c.cfg.packet_size = 1024;
+            out.push(c);
+        }
+    }
+    out
+}
+
+fn payload_test(c: &super::c02::SweepCase, obs: &mut Obs) -> CheckResult {
+    let log = run_trace(&c.cfg, &super::c02::sweep_world());
+    if let Some(p) = &log.panic {
+        vfail!(panic_sig(p), "tracer panicked: {p}");
+    }
+    if let Some(a) = &log.aborted {
+        vfail!("abort", "run did not terminate within the deterministic cap: {a}");
+    }
+    if let Some(Err(e)) = &log.result {
+        vfail!("run-error", "run failed without any scripted fault: {e}");
+    }
+    let mut max_off = 0u16;
+    let mut n = 0u64;
+    for s in &log.sends {
+        let Some(w) = &s.wire else { continue };
+        n += 1;
+        vensure!(w.datagram.len() <= 1024, "datagram-too-long", "send of {} octets exceeds the 1024-octet packet buffer", w.datagram.len());
+        if let Some(seq) = crate::simnet::world::wire_sequence(&c.cfg, w) {
+            max_off = max_off.max(seq.wrapping_sub(c.cfg.initial_sequence));
+        }
+    }
+    vensure!(n >= u64::from(c.rounds) * u64::from(c.cfg.max_ttl), "sweep-shape", "only {n} probes in {} rounds of {}", c.rounds, c.cfg.max_ttl);
+    vensure!(max_off >= 511, "sweep-shape", "highest offset reached is {max_off}");
+    obs.extra_evals = n.saturating_sub(1);
+    obs.class(format!("max-offset:{max_off}"));
+    obs.nontrivial(&(c.cfg.cell(), c.cfg.initial_sequence, c.cfg.max_ttl));
+    Ok(())
+}
+
 pub fn check() -> PropertyCheck {
     PropertyCheck {
         id: "C07",
@@ -520,6 +574,12 @@ pub fn check() -> PropertyCheck {
                 strat: storm_strat,
                 test: storm_test,
                 max_shrink: 2000,
+            }),
+            Box::new(Enumerated {
+                name: "dublin-v6-payload-fits",
+                exhaustive_note: Some("every sequence offset a UDP/Dublin/IPv6 trace can reach with rounds of 254 and of 73 probes (offsets 0..=761, round starts up to 511) dispatched through the real channel"),
+                cases: payload_cases,
+                test: payload_test,
             }),
         ],
     }
